@@ -202,13 +202,18 @@ C03(B, k) == /\ C03_ListsPassedOn(B, k) /\ C03_TransferIsChoice(B, k) /\ C03_Cho
 
 C04_NoPanic(B, k) == ~B[k].panic /\ B[k].result # "Panic"
 C04_EndsByItself(B, k) == ~B[k].hang /\ ~B[k].ranAfterEof
-C04_BoundedAllocation(B, k) == B[k].maxAlloc <= 4 * B[k].maxLen + 65536
+\* largest single request: a few frames' worth while frames are read and decoded; where a decoded string is then PROCESSED (the reported
+\* locale by the localization service: rounds tagged procFactor by the check) a pointer-sized record per byte of it is still in proportion
+C04_BoundedAllocation(B, k) == B[k].maxAlloc <= (IF Has(B[k], "procFactor") THEN B[k].procFactor ELSE 4) * B[k].maxLen + 65536
 C04_BadFrameEndsSilently(B, k) ==
   LET bad == Idx(H(B, k), IsBadFrame) IN
   bad # {} => /\ \A i \in Txs(B, k) : i < MinOf(bad)
               /\ B[k].result \in {"Err","running"}
 
-C04(B, k) == C04_NoPanic(B, k) /\ C04_EndsByItself(B, k) /\ C04_BoundedAllocation(B, k) /\ C04_BadFrameEndsSilently(B, k)
+\* "memory out of proportion to the configured maximum frame size": everything the handler thread holds at once (the harness's own client
+\* included) stays within a generous multiple of the maximum frame -- a frame's worth of input must not cost thousands of frames of memory
+C04_ProportionateMemory(B, k) == Has(B[k], "peakLive") => B[k].peakLive <= 256 * B[k].maxLen + 4194304
+C04(B, k) == C04_NoPanic(B, k) /\ C04_EndsByItself(B, k) /\ C04_BoundedAllocation(B, k) /\ C04_BadFrameEndsSilently(B, k) /\ C04_ProportionateMemory(B, k)
 
 ---------------------------------------------------------------------------
 (* C06  Packets are only exchanged in protocol order; status and login never mix *)
@@ -314,7 +319,7 @@ ClauseNames(p) ==
   CASE p = "C01" -> {"C01_GrantOnlyVouched","C01_PlayerIsVouched","C01_AuthArgs","C01_NoGrantOnFailure","C01_CipherKeyedBySecret"}
     [] p = "C02" -> {"C02_FlagIffNoCookie","C02_CookieAnswered","C02_VerdictRequired","C02_IdentityFromCookie"}
     [] p = "C03" -> {"C03_ListsPassedOn","C03_TransferIsChoice","C03_ChoiceIsTransferred","C03_NoTargetDisconnect","C03_ErrorNoTransfer"}
-    [] p = "C04" -> {"C04_NoPanic","C04_EndsByItself","C04_BoundedAllocation","C04_BadFrameEndsSilently"}
+    [] p = "C04" -> {"C04_ProportionateMemory", "C04_NoPanic","C04_EndsByItself","C04_BoundedAllocation","C04_BadFrameEndsSilently"}
     [] p = "C06" -> {"C06_Order","C06_NothingGarbled","C06_CookieRequestKeys","C06_SuccessAfterHonestResponse",
                      "C06_RoutingAfterClientInfo","C06_StatusExchange","C06_CompleteLogin","C06_DeviationSilent"}
     [] p = "C12" -> {"C12_AsksAboutClaimedName"}
@@ -333,6 +338,7 @@ Clause(n, B, k) ==
     [] n = "C03_ErrorNoTransfer" -> C03_ErrorNoTransfer(B, k)
     [] n = "C04_NoPanic" -> C04_NoPanic(B, k) [] n = "C04_EndsByItself" -> C04_EndsByItself(B, k)
     [] n = "C04_BoundedAllocation" -> C04_BoundedAllocation(B, k) [] n = "C04_BadFrameEndsSilently" -> C04_BadFrameEndsSilently(B, k)
+    [] n = "C04_ProportionateMemory" -> C04_ProportionateMemory(B, k)
     [] n = "C06_Order" -> C06_Order(B, k) [] n = "C06_NothingGarbled" -> C06_NothingGarbled(B, k)
     [] n = "C06_CookieRequestKeys" -> C06_CookieRequestKeys(B, k) [] n = "C06_SuccessAfterHonestResponse" -> C06_SuccessAfterHonestResponse(B, k)
     [] n = "C06_RoutingAfterClientInfo" -> C06_RoutingAfterClientInfo(B, k) [] n = "C06_StatusExchange" -> C06_StatusExchange(B, k)
